@@ -1181,7 +1181,10 @@ def body(ck, st, quick):
                        "whole-function translation (declarations, labels, calls, memory operands, alloca, laddr/jmpi) is exercised by compile-and-run, not modelled",
                        "floating point and long double rows are compared with MIR_interp bit for bit (NaN payloads ignored), not with a Lean theorem",
                        "non-finite fp constants cannot be written in MIR text and are not exercised",
-                       "the interpreter and translator are built as shipped (-DNDEBUG) for running; an assert-enabled translator is used to classify repository modules"]
+                       "the interpreter and translator are built as shipped (-DNDEBUG) for running; an assert-enabled translator is used to classify repository modules",
+                       "repository modules (mir-tests, c2m -S of c-tests) are translated and offered to gcc -fsyntax-only; they are not linked and run "
+                       "(they need libc and a main); end-to-end execution is decided on generated modules",
+                       "MIR_UNSPEC is outside C20's vocabulary (Model/Mir2CKnown.outsideVocabulary)"]
 
 
 main()
